@@ -27,6 +27,9 @@ def conversations():
     # the peer aborts without waiting for the answer: the local user stays silent here, because its answer would
     # race with the abort (a user primitive consumed after the association ended is outside C03/C05)
     convs['A7-rq-and-abort-at-once'] = ('acceptor', {'silent': True, 'eof_burst_ok': True}, [('peer', [rq, abort]), ('eof',)])
+    # a header-only PDU (declared length 0, unknown type) right behind the request, the close right behind it
+    convs['A8-header-only-tail'] = ('acceptor', {'silent': True, 'eof_burst_ok': True}, [('peer', [rq, b'\x09\x00\x00\x00\x00\x00']), ('eof',)])
+    convs['A9-release-then-more'] = ('acceptor', {'silent': True, 'eof_burst_ok': True}, [('peer', [rlrq, rq, abort]), ('eof',)])
     convs['R1-echo-release'] = ('requester', {}, [('user', 'rq'), ('peer', [ac]), ('user', 'echo'),
                                                   ('peer', P.wire(P.echo_rsp(1), 1, 16384)), ('user', 'rlrq'),
                                                   ('peer', [rlrp]), ('eof',)])
